@@ -282,4 +282,74 @@ theorem run_msgs (acts : List HttpServerStream.Act) : ∀ (s s' : HttpServerStre
     obtain ⟨s1, r, rs', hs, hr, rfl⟩ := HttpServerStream.run_cons h
     rw [ih s1 s' rs' hr, step_msgs s a s1 r hs, okSends_cons a rest r rs', List.append_assoc]
 
+/-! ### request direction -/
+
+def pend (s : St) : List Nat := match s.cSend with | some m => [m] | none => []
+
+/-- what the client has put on the wire is, in order, what its SendMsg calls offered — with the
+    message of a SendMsg still parked in the pipe as the only one outstanding; once a send has
+    failed nothing more is offered -/
+structure ReqInv (s : St) : Prop where
+  eq : s.wErr = false → s.reqWritten ++ pend s = s.offered
+  pre : s.reqWritten ++ pend s <+: s.offered
+
+theorem reqinv_init (rs : Bool) : ReqInv (HttpClientStream.init rs) := by
+  constructor <;> simp [HttpClientStream.init, pend]
+
+theorem reqinv_step (s : St) (a : Act) (s' : St) (evs : List HttpClientStream.Ev) (hi : ReqInv s)
+    (h : HttpClientStream.step s a = some (s', evs)) : ReqInv s' := by
+  obtain ⟨h1, h2⟩ := hi
+  cases a with
+  | cSendBegin m =>
+    simp only [HttpClientStream.step] at h
+    split at h
+    · simp at h
+    · rename_i hnone
+      have hc : s.cSend = none := by
+        cases hcs : s.cSend with
+        | none => rfl
+        | some x => simp [hcs] at hnone
+      split at h
+      · simp only [Option.some.injEq, Prod.mk.injEq] at h; obtain ⟨rfl, rfl⟩ := h; exact ⟨h1, h2⟩
+      · rename_i hdw
+        have hw : s.wErr = false := by
+          cases hww : s.wErr with
+          | false => rfl
+          | true => simp [hww] at hdw
+        split at h
+        · simp only [Option.some.injEq, Prod.mk.injEq] at h; obtain ⟨rfl, rfl⟩ := h
+          refine ⟨by simp, ?_⟩
+          simpa [pend, hc] using h2
+        · simp only [Option.some.injEq, Prod.mk.injEq] at h; obtain ⟨rfl, rfl⟩ := h
+          have he := h1 hw
+          simp only [pend, hc, List.append_nil] at he
+          refine ⟨fun _ => by simp [pend, he], by simp [pend, he]⟩
+  | tReadReq =>
+    simp only [HttpClientStream.step] at h
+    split at h
+    · rename_i m hcs
+      simp only [Option.some.injEq, Prod.mk.injEq] at h; obtain ⟨rfl, rfl⟩ := h
+      refine ⟨fun hw => ?_, ?_⟩
+      · have := h1 hw; simpa [pend, hcs] using this
+      · simpa [pend, hcs] using h2
+    · simp at h
+  | cSendPipeClosed =>
+    simp only [HttpClientStream.step] at h
+    split at h
+    · rename_i m hcs
+      split at h
+      · simp only [Option.some.injEq, Prod.mk.injEq] at h; obtain ⟨rfl, rfl⟩ := h
+        refine ⟨by simp, ?_⟩
+        simp only [pend, hcs] at h2
+        simpa [pend] using (List.prefix_append s.reqWritten [m]).trans h2
+      · simp at h
+    · simp at h
+  | _ =>
+    simp only [HttpClientStream.step, HttpClientStream.complete] at h <;> (repeat' split at h) <;>
+    (try (simp only [Option.some.injEq, Prod.mk.injEq, reduceCtorEq] at h)) <;>
+    (try (obtain ⟨rfl, rfl⟩ := h)) <;> (first | (exfalso; assumption) | (exact ⟨h1, h2⟩) | (constructor <;> simp_all [pend]))
+
+theorem reqinv_run (rs : Bool) (acts : List Act) (s : St) (h : HttpClientStream.run (HttpClientStream.init rs) acts = some s) : ReqInv s :=
+  HttpClientStream.run_induction ReqInv (fun s a s' evs hp hs => reqinv_step s a s' evs hp hs) acts _ s (reqinv_init rs) h
+
 end HttpCompose
